@@ -163,11 +163,13 @@ class VPolicy(asyncio.DefaultEventLoopPolicy):
 
 
 def explore(run_fn, bound=None, batch=False, max_execs=None, on_exec=None, roots=None,
-            seen=None):
+            seen=None, time_cap=None):
     """Stateless DFS over choice prefixes with deviation/preemption bounding.
     run_fn(chooser) runs one complete execution.  `roots`: prefixes to start from (default: the
     empty prefix); the subtree of a root contains exactly the schedules that extend it at later
     points, so disjoint roots give disjoint subtrees.  Returns dict of stats."""
+    import time as _time
+    t_end = (_time.time() + time_cap) if time_cap else None
     stack = [list(r) for r in (roots if roots is not None else [[]])]
     execs = 0
     maxpoints = 0
@@ -202,6 +204,10 @@ def explore(run_fn, bound=None, batch=False, max_execs=None, on_exec=None, roots
             for alt in range(1, nopt):
                 stack.append(base + [alt])
         if max_execs and execs >= max_execs:
+            capped = bool(stack)
+            break
+        if t_end is not None and _time.time() > t_end:
+            # a wall-clock cap is a cap (reported, "exhaustive": false), never a violation
             capped = bool(stack)
             break
     return {"executions": execs, "max_points": maxpoints, "capped": capped,
